@@ -203,6 +203,20 @@ CHECKS["C07"] = dict(
     technique="protocol/routing contracts on the parser IR + E1 contracts on peek/is_blank (z3); raw-capture loops bounded only",
 )
 
+CHECKS["C10"] = dict(
+    engine="gramref+pegir+pyvc", category="proof",
+    text="The seven f-string grammar rules are proved to have CPython 3.12's alternatives in order (refinement against a transcription of the 3.12 "
+         "rules), their actions to build Constant / FormattedValue / JoinedStr from exactly the matched items, `fstring` to be reachable only through "
+         "`strings` (concatenate_strings), check_fstring_conversion and the mode-frame queries to meet their contracts (E1). The literal-text search "
+         "patterns are checked exhaustively on short strings with the real `re` (bounded). ~29000 f-strings (prefix x quote x literal x field x layout) "
+         "against tokenize/ast.parse of the running CPython are the bounded stand-in; five whole input classes are known findings.",
+    design_ref="DESIGN.md 5/C10",
+    note="ASSUMED: hand transcription of CPython 3.12's f-string rules; contracts of the f-string mode machine (handle_fstring_progs, "
+         "next_psuedo_matches, handle_end_progs) and concatenate_strings are not verified from their bodies - stand-in only. Known findings: doubled "
+         "braces, '=' debug fields, \\N{...}, non-ASCII columns, multi-line format spec.",
+    technique="grammar refinement + action contracts on the parser IR, E1 contracts (z3); mode machine bounded only",
+)
+
 NOT_APPLICABLE_REASON = "not built yet (DESIGN.md section 8 build order); no claim is made"
 
 manifest = {
